@@ -201,6 +201,7 @@ class Interp:
         self.dataproj = {}        # adt path -> list of proj tuples that denote "the data this RawLock protects"
         self.inline_hl = False    # inline crate-local RawLock impl methods instead of emitting HL events
         self.inline_assume = False
+        self.inline_assume_of = set()   # ADT paths whose guard-family impls are inlined (wrapper-specific rules)
         self.nounwind_extra = set()
         self.npaths = 0
         self.key_is_primitive = True
@@ -1126,6 +1127,10 @@ class Interp:
         if trait in ("lockable::Lockable", "lockable::Sharable") and name in ASSUME_OPS:
             if self.inline_assume and lfn is not None:
                 return self.inline(st, lfn, args, depth)
+            if lfn is not None and self.inline_assume_of:
+                imp = self.F.impl_of_fn(lfn)
+                if imp and imp["self_ty"]["k"] == "adt" and imp["self_ty"]["path"] in self.inline_assume_of:
+                    return self.inline(st, lfn, args, depth)
             return self.assume_event(st, fn, name, args, line, dest_ty, tdef)
         if trait == "lockable::Lockable" and name == "get_ptrs":
             recv = self.recv_of(st, args[0])
